@@ -195,5 +195,63 @@ impl MBTilesReader {
 		let ghost pre_flip = bbox_pyramid;
 //@end
 }
+
+// ---- write side: MBTilesWriter::add_tiles (INSERT INTO tiles (zoom_level, tile_column, tile_row, tile_data) VALUES (?1, ?2, ?3, ?4))
+// R6: the connection pool / transaction are a stand-in whose table content is a finite map (zoom, column, row) -> bytes; a committed
+// transaction adds its inserted records (trusted: rusqlite transaction semantics, the SQL text)
+// the table key of a coordinate (rows are TMS) and "tile i of the batch is in the table (with the bytes of its last occurrence up to n)"
+pub open spec fn tkey(c: TileCoord3) -> (int, int, int) { (c.z as int, c.x as int, pow2(c.z as nat) - 1 - c.y) }
+pub open spec fn stored(m: Map<(int, int, int), Seq<u8>>, tiles: Seq<(TileCoord3, Blob)>, n: int, i: int) -> bool {
+	m.contains_key(tkey(tiles[i].0)) && exists|j: int| i <= j < n && (#[trigger] tiles[j]).0 == tiles[i].0 && m[tkey(tiles[i].0)] == tiles[j].1@
+}
+#[verifier::external_body] pub struct MBTilesWriter { }
+#[verifier::external_body] pub struct Txn { }
+impl Txn {
+	pub uninterp spec fn recs(&self) -> Map<(int, int, int), Seq<u8>>;
+	#[verifier::external_body]
+	pub fn ins_tile(&mut self, z: u8, c: u32, r: u32, blob: &Blob) -> (res: Result<(), VErr>)
+		ensures res is Ok ==> final(self).recs() == old(self).recs().insert((z as int, c as int, r as int), blob@), res is Err ==> final(self).recs() == old(self).recs()
+	{ unimplemented!() }
+}
+impl MBTilesWriter {
+	pub uninterp spec fn table(&self) -> Map<(int, int, int), Seq<u8>>;
+	#[verifier::external_body]
+	pub fn begin(&mut self) -> (r: Result<Txn, VErr>) ensures final(self).table() == old(self).table(), r is Ok ==> r.unwrap().recs() == Map::<(int, int, int), Seq<u8>>::empty() { unimplemented!() }
+	#[verifier::external_body]
+	pub fn commit(&mut self, t: Txn) -> (r: Result<(), VErr>) ensures r is Ok ==> final(self).table() == old(self).table().union_prefer_right(t.recs()) { unimplemented!() }
+//@extract fn file="versatiles_container/src/container/mbtiles/writer.rs" scope="impl MBTilesWriter" name="add_tiles"
+//@prerewrite "let mut conn = self.pool.get()?; let transaction = conn.transaction()?;" => "let mut transaction = self.begin()?;"
+//@prerewrite "transaction.execute( \"INSERT INTO tiles (zoom_level, tile_column, tile_row, tile_data) VALUES (?1, ?2, ?3, ?4)\", params![c.z, c.x, max_index - c.y, blob.as_slice()], )?;" => "transaction.ins_tile(c.z, c.x, max_index - c.y, blob)?;" optional
+//@prerewrite "transaction.execute( \"INSERT INTO tiles (zoom_level, tile_column, tile_row, tile_data) VALUES (?1, ?2, ?3, ?4)\", params![c.z, c.x, c.y, blob.as_slice()], )?;" => "transaction.ins_tile(c.z, c.x, c.y, blob)?;" optional
+//@prerewrite "transaction.commit()?;" => "self.commit(transaction)?;"
+//@rewrite "for (c, blob) in tiles {" => "for vi in 0..tiles.len() { let c = &tiles[vi].0; let blob = &tiles[vi].1;" R7
+//@ret r
+//@spec
+		// the tiles a source streams have coordinates of the grid
+		requires forall|i: int| 0 <= i < tiles@.len() ==> (#[trigger] tiles@[i]).0.valid(),
+		// every tile is stored at (zoom, column, TMS row): exactly where the reader's lookup and box query look for it (get_tile_data above);
+		// if a coordinate occurs more than once, the bytes of a later occurrence
+		ensures r is Ok ==> forall|i: int| 0 <= i < tiles@.len() ==> #[trigger] stored(final(self).table(), tiles@, tiles@.len() as int, i),
+//@loop 1 iter=it
+			invariant forall|i: int| 0 <= i < tiles@.len() ==> (#[trigger] tiles@[i]).0.valid(),
+				it.index@ <= tiles@.len(),
+				forall|i: int| 0 <= i < it.index@ ==> #[trigger] stored(transaction.recs(), tiles@, it.index@ as int, i),
+//@loopstart 1
+			proof { assert(tiles@[vi as int].0.valid()); lemma_pow2_bound(tiles@[vi as int].0.z as nat); }
+			let ghost r0 = transaction.recs();
+//@loopend 1
+			proof {
+				let cn = tiles@[vi as int].0;
+				assert forall|i: int| 0 <= i < vi + 1 implies #[trigger] stored(transaction.recs(), tiles@, vi + 1, i) by {
+					let c = tiles@[i].0;
+					if tkey(c) == tkey(cn) { assert(c.valid() && cn.valid()); assert(c == cn); assert(i <= vi < vi + 1 && tiles@[vi as int].0 == c && transaction.recs()[tkey(c)] == tiles@[vi as int].1@); }
+					else { assert(stored(r0, tiles@, vi as int, i)); let j = choose|j: int| i <= j < vi && (#[trigger] tiles@[j]).0 == c && r0[tkey(c)] == tiles@[j].1@; assert(i <= j < vi + 1 && tiles@[j].0 == c && transaction.recs()[tkey(c)] == tiles@[j].1@); }
+				}
+			}
+//@after "self.commit(transaction)?;"
+		proof { assert forall|i: int| 0 <= i < tiles@.len() implies #[trigger] stored(self.table(), tiles@, tiles@.len() as int, i) by {
+			assert(stored(transaction.recs(), tiles@, tiles@.len() as int, i)); } }
+//@end
+}
 } // verus!
 fn main() {}
